@@ -404,7 +404,17 @@ class MultiMapping(typing.Generic[KT, VT], typing.Mapping[KT, VT]):
     def __eq__(self, other: typing.Any) -> bool:
         if not isinstance(other, self.__class__):
             return False
-        return sorted(self._list) == sorted(other._list)
+        # Order-insensitive comparison of the pairs. Values (e.g. upload files)
+        # need not be orderable, so don't sort.
+        if len(self._list) != len(other._list):
+            return False
+        remaining = list(other._list)
+        for item in self._list:
+            try:
+                remaining.remove(item)
+            except ValueError:
+                return False
+        return True
 
     def __repr__(self) -> str:
         class_name = self.__class__.__name__
